@@ -16,14 +16,15 @@ driver for the framer interpreter (engine `flo`).  One request = one whole progr
   act    := rec <tag> <ret> | put <dst> <v> | inc <dst> <v> | incf <dst> <src> | copy <src> <dst>
           | done <k> <framer>*k | bid <control> <k> <framer>*k
   need   := <neg 0|1> ( al | cd <share> <op> <v> | ci <share> <op> <share> | bo <share>
-                      | el <framer> <op> <t> | re <framer> <op> <n> | dn <framer> | st <framer> <status> )
+                      | el <framer> <op> <t> | re <framer> <op> <n> | dn <framer> | st <framer> <status>
+                      | xa <frame> | xl <frame> | xn <frame> <framer> )
 
 Reply: records joined by `|`:
   `E f<frame> <context> <tag>`   recorder action executed
   `S <k> <framer>*`              state after tick k, per framer `i:status:active:actives:done:main:elapsed:recurred`
   `V <values>`                   store values after tick k
   `Z <framer>*`, `V …`           after the final ABORT of everything still ready
-  `G overlap=<b> reenter=<b> shared=<b>`  ghost flags of the run and `sharedAux` of the program (region
+  `G overlap=<b> reenter=<b> shared=<b> left=<b> dbl=<b>`  ghost flags of the run and `sharedAux` of the program (region
                                  predicates of the known findings)
   `ERR build <kind>` / `ERR run <kind>`
 -/
@@ -138,6 +139,9 @@ def need : Parser NeedId := do
     | "re" => do let f ← nat; let o ← cmp; let v ← nat; pure (CNeed.recurred f o v)
     | "dn" => do let f ← nat; pure (CNeed.done f)
     | "st" => do let f ← nat; let st ← status; pure (CNeed.status f st)
+    | "xa" => do let f ← nat; pure (CNeed.auxAny f)
+    | "xl" => do let f ← nat; pure (CNeed.auxAll f)
+    | "xn" => do let f ← nat; let x ← nat; pure (CNeed.auxNamed f x)
     | _ => failP)
   addNeed { neg := neg != 0, need := n }
 
@@ -276,7 +280,8 @@ def runLoop (P : Prog) (sem : Sem World) (lo : Ops World) (acts : Array CAct) (n
           let (evs, s'') := flush acts s''
           out ++ evs ++ snapshot "Z" nfr nsh s'' ++
             ["G overlap=" ++ (if s''.overlap then "1" else "0") ++ " reenter=" ++ (if s''.reenter then "1" else "0")
-              ++ " shared=" ++ (if shared then "1" else "0")]
+              ++ " shared=" ++ (if shared then "1" else "0") ++ " left=" ++ (if s''.left then "1" else "0")
+              ++ " dbl=" ++ (if s''.dbl then "1" else "0")]
       else runLoop P sem lo acts nfr nsh period shared fuel (k + 1) sk' { s' with now := s'.now + period } out
 
 def showResolveErr : Outline.ResolveErr → String
@@ -288,7 +293,7 @@ def execute (r : Request) (acts : Array CAct) (needs : Array NeedC) : String :=
   | .error e => "ERR build " ++ showResolveErr e
   | .ok (frames, framers) =>
     let P := mkProg frames framers
-    let sem := concreteSem acts.toList needs.toList
+    let sem := concreteSem acts.toList needs.toList (fun f => (P.frame f).auxes)
     let lo := opsAt P sem r.depth
     let w : World := fun i => (r.shares[i]?).getD 0
     let s0 := r.ready.foldl (fun s e => addReady e.1 e.2 s) (initSt w)
